@@ -10,7 +10,7 @@ import (
 )
 
 func Notify(c chan<- os.Signal, sig ...os.Signal) {
-	if verifsim.RegisterSignal(c) {
+	if verifsim.RegisterSignal(c, sig...) {
 		return
 	}
 	signal.Notify(c, sig...)
